@@ -130,6 +130,43 @@ def class_state_writes(res, tree: Tree, rule: str, select: Callable[[ClassInfo],
     return n
 
 
+_DEPS = {}
+
+
+def _deps_cached(t):
+    from ..terms import deps
+    if t.id not in _DEPS:
+        _DEPS[t.id] = list(deps(t))
+    return _DEPS[t.id]
+
+
+def _is_version_of(new, old) -> bool:
+    """`new` is `old` after in-place style updates only: a chain of .at[...].set/add(...) calls, record updates,
+    casts and copies that starts at `old` (so both denote the same array / record at two moments)."""
+    from ..normal import strip_cast
+    from ..terms import uncopy
+    t = new
+    for _ in range(12):
+        t = uncopy(strip_cast(t))
+        if t is old:
+            return True
+        if t.kind == "call" and t.args[0].kind == "attr" and t.args[0].args[1] in ("set", "add", "multiply", "min", "max", "astype"):
+            base = t.args[0].args[0]
+            if t.args[0].args[1] == "astype":
+                t = base
+                continue
+            # x.at[idx].set(v): base is index(attr(x, 'at'), idx)
+            if base.kind == "index" and base.args[0].kind == "attr" and base.args[0].args[1] == "at":
+                t = base.args[0].args[0]
+                continue
+            return False
+        if t.kind == "update":
+            t = t.args[0]
+            continue
+        return False
+    return False
+
+
 def paired_call_args(res, tree: Tree, rule: str, role: str, select_env: Callable[[ClassInfo], bool]) -> int:
     """W4 (sibling call sites): a helper that `reset` calls with exactly the value it stores in state field f is,
     when `step` calls it too, given the value step stores in f -- never the superseded `state.f` of the incoming
@@ -174,6 +211,15 @@ def paired_call_args(res, tree: Tree, rule: str, role: str, select_env: Callable
                             continue
                         ra, sb = uncopy(a[pn]), uncopy(b[pn])
                         for f in fields:
+                            # mirrored direction: step hands the helper the value it stores in state.f, reset hands it an
+                            # earlier version of the value it stores in state.f (the stored value is built from it)
+                            if sb is N[f] and N[f] is not O[f] and ra is not R[f] and ra.kind not in ("const", "self", "param") \
+                                    and R[f].kind not in ("const",) and ra in set(_deps_cached(R[f])) and _is_version_of(R[f], ra):
+                                rsite = f"{reset.module.relpath}:{getattr(_, 'lineno', reset.node.lineno)}"
+                                res.add(rule, rsite, f"{ci.name}.reset -> {short(q)}({pn}=...)",
+                                        f"step passes the value it stores in state.{f}; reset passes the value it stores in state.{f}, not an earlier version of it", False,
+                                        f"reset passes {txt(ra, 2, 60)}, from which the stored state.{f} = {txt(R[f], 2, 60)} is only built afterwards")
+                                n += 1
                             if R[f] is not ra or N[f] is O[f]:
                                 continue
                             stale = sb is O[f]
